@@ -13,10 +13,244 @@ RULE = "rule instances = (rule, site) pairs over MIR branches / constructions / 
 SS = 'StreamsState'
 
 
+# --------------------------------------------------------------------------
+# local helpers: edge-exact tests (which edge of a branch carries which variant / Some / None, what is
+# returned over an edge).  All decide on descriptors and CFG edges, never on local names or lines.
+# --------------------------------------------------------------------------
+
+def _is_const(d, v):
+    return isinstance(d, tuple) and d[0] == 'const' and d[1] == 'int' and str(d[2]) == str(v) and not d[3]
+
+
+def _field_named(name):
+    return lambda x: isinstance(x, tuple) and x[0] == 'field' and x[2] == name
+
+
+def _variant_lit(d, adt_pat):
+    """variant name when d is a field-less variant literal of the ADT, else None"""
+    if isinstance(d, tuple) and d[0] == 'agg' and d[1] == 'adt' and not d[3]:
+        pre, _, v = d[2].rpartition('::')
+        if pre == adt_pat or pre.endswith('::' + adt_pat) or adt_pat.endswith('::' + pre):
+            return v
+    return None
+
+
+def _agg_is(d, var):
+    """d constructs (adt, variant)"""
+    if not (isinstance(d, tuple) and d[0] == 'agg' and d[1] == 'adt'):
+        return False
+    pre, _, v = d[2].rpartition('::')
+    return v == var[1] and (pre == var[0] or pre.endswith('::' + var[0]))
+
+
+def variant_test(F, br, adt_pat, scrut):
+    """{variant name: target block} when branch `br` decides on the variant of a value x with scrut(x): a
+    discriminant switch on x, or x ==/!= a field-less variant literal (either operand order, negations peeled).
+    None when br is not such a test."""
+    adt = F.adt(adt_pat)
+    names = {v['name']: int(v['discr']) for v in adt['variants']}
+    d = br.desc
+    if d[0] == 'discr':
+        return {n: br.target(k) for n, k in names.items()} if scrut(d[1]) else None
+    rel = relation_on(d, True)
+    if rel is None or rel[0] not in ('Eq', 'Ne'):
+        return None
+    for lit, other in ((rel[1], rel[2]), (rel[2], rel[1])):
+        v = _variant_lit(lit, adt_pat)
+        if v in names and scrut(other):
+            eq_t, ne_t = (br.target(1), br.target(0)) if rel[0] == 'Eq' else (br.target(0), br.target(1))
+            return {n: (eq_t if n == v else ne_t) for n in names}
+    return None
+
+
+def option_tests(F, body, scrut):
+    """(Branch, some_target, none_target) for every branch deciding whether an Option x with scrut(x) is Some:
+    discriminant switch (`if let` / `match`), `x.is_some()` / `x.is_none()` (negations peeled)"""
+    out = []
+    for br in branches(F, body):
+        d = br.desc
+        if d[0] == 'discr':
+            if scrut(d[1]):
+                out.append((br, br.target(1), br.target(0)))
+            continue
+        inner, neg = peel_not(d)
+        if inner[0] == 'call' and inner[1] in ('Option::is_some', 'Option::is_none') and len(inner[3]) == 1 and scrut(inner[3][0]):
+            t, f = br.target(0 if neg else 1), br.target(1 if neg else 0)
+            out.append((br, t, f) if inner[1] == 'Option::is_some' else (br, f, t))
+    return out
+
+
+_PATH_CAP = 2000
+
+
+def _ret_paths(body, start):
+    """simple block paths start -> normal return (None when there are too many to enumerate)"""
+    rets = set(body.return_blocks())
+    out = []
+    path = []
+    on = set()
+
+    def rec(bb):
+        if len(out) > _PATH_CAP:
+            return
+        path.append(bb)
+        on.add(bb)
+        if bb in rets:
+            out.append(list(path))
+        else:
+            for s in body.succ[bb]:
+                if s not in on:
+                    rec(s)
+        on.discard(bb)
+        path.pop()
+    rec(start)
+    return None if len(out) > _PATH_CAP else out
+
+
+def returns_via(F, body, start):
+    """flattened descriptors of the value returned on every simple path start -> return: the last whole store of
+    the return place ON THAT PATH (followed back through whole-local copies); a value defined before `start` is
+    described flow-insensitively at `start`.  None when no path reaches a return (or too many paths)."""
+    ps = _ret_paths(body, start)
+    if not ps:
+        return None
+    d = describer(F, body)
+    calls = {c.bb: c for c in body.calls()}
+    out = []
+    for p in ps:
+        local, i, upto, val = 0, len(p) - 1, None, None
+        for _ in range(64):
+            found = None
+            for k in range(i, -1, -1):
+                bb = p[k]
+                first = (k == i and upto is not None)
+                if not first and k < len(p) - 1:
+                    c = calls.get(bb)
+                    if c is not None and c.dst[0] == local and not c.dst[1]:
+                        found = ('call', c)
+                        break
+                stmts = body.blocks[bb]['s']
+                hi = upto if first else len(stmts)
+                for j in range(hi - 1, -1, -1):
+                    s = stmts[j]
+                    if s[0] == '=' and s[1][0] == local and not s[1][1]:
+                        found = ('stmt', k, j, s[2])
+                        break
+                if found:
+                    break
+            if found is None:
+                val = d.place([local, []], p[0], 0)
+                break
+            if found[0] == 'call':
+                val = d.call_desc(found[1], 0)
+                break
+            _, k, j, rv = found
+            if rv[0] == 'use' and rv[1][0] in ('c', 'm') and not rv[1][1][1]:
+                local, i, upto = rv[1][1][0], k, j
+                continue
+            val = d.rvalue(rv, p[k], j, 0)
+            break
+        if val is None:
+            return None
+        for x in flat(val):
+            if x not in out:
+                out.append(x)
+    return out
+
+
+def variant_predicate(F, fn, adt_pat, scrut):
+    """the set of variants for which the bool function `fn` answers true, when fn is EXACTLY a test of the variant
+    of a value x with scrut(x) (`matches!`, `match`, `x == Lit`); None when fn has any other shape."""
+    names = [v['name'] for v in F.adt(adt_pat)['variants']]
+    brs = branches(F, fn)
+    rds = [x for _, x in ret_descs(F, fn)]
+    if not brs:
+        if len(rds) != 1:
+            return None
+        rel = relation_on(rds[0], True)
+        if rel is None or rel[0] not in ('Eq', 'Ne'):
+            return None
+        for lit, other in ((rel[1], rel[2]), (rel[2], rel[1])):
+            v = _variant_lit(lit, adt_pat)
+            if v in names and scrut(other):
+                return {v} if rel[0] == 'Eq' else set(names) - {v}
+        return None
+    for br in brs:
+        vt = variant_test(F, br, adt_pat, scrut)
+        if not vt or not all(fn.dominates(br.bb, r) for r in fn.return_blocks()):
+            continue
+        res, bad = set(), False
+        for v, t in vt.items():
+            vals = returns_via(F, fn, t)
+            if vals and all(_is_const(x, 1) for x in vals):
+                res.add(v)
+            elif not (vals and all(_is_const(x, 0) for x in vals)):
+                bad = True
+        if not bad:
+            return res
+    return None
+
+
+def _lookup_opt(d, sites):
+    """the lookup call site whose Option result d is (possibly `.map(..)`-ed: map keeps None-ness), else None"""
+    while isinstance(d, tuple) and d[0] == 'call' and d[1] == 'Option::map' and d[3]:
+        d = d[3][0]
+    for c in sites:
+        if isinstance(d, tuple) and d[0] == 'call' and len(d) > 4 and d[4] == c.bb and c.is_(d[1]):
+            return c
+    return None
+
+
+def missing_entry_refused(ctx, b, lookups, var):
+    """every map lookup of `b` has its None outcome tied to the error `var`:
+      * `lookup[.map(f)].ok_or(var)?` (or ok_or_else(|| var)): over the Break edge of the `?` only the residual of
+        that very ok_or value is returned;
+      * a discriminant test of the lookup result (`match` / `let .. else` / `if let`): every path from the None edge
+        constructs `var` before returning.
+    returns the list of lookup sites NOT tied that way."""
+    F = ctx.facts
+    eff = effect_blocks(ctx, b, variant=var)
+    rets = b.return_blocks()
+    good, bad = set(), set()
+    for br in branches(F, b):
+        if br.desc[0] != 'discr':
+            continue
+        x = br.desc[1]
+        c = _lookup_opt(x, lookups)
+        if c is not None:
+            if eff and path_avoiding(b, [br.target(0)], rets, eff) is None:
+                good.add(c.bb)
+            else:
+                bad.add(c.bb)
+            continue
+        if isinstance(x, tuple) and x[0] == 'call' and x[1] in ('Option::ok_or', 'Option::ok_or_else') and len(x[3]) == 2:
+            c = _lookup_opt(x[3][0], lookups)
+            if c is None:
+                continue
+            e = x[3][1]
+            if x[1] == 'Option::ok_or':
+                e_ok = _agg_is(e, var)
+            else:
+                cbs = [cb for cb in F.bodies.values() if cb.kind == 'closure' and isinstance(e, tuple) and e[0] == 'agg' and e[1] == 'closure' and cb.canon == e[2]]
+                e_ok = len(cbs) == 1 and all(_agg_is(v, var) for _, v in ret_descs(F, cbs[0])) and bool(ret_descs(F, cbs[0]))
+            vals = returns_via(F, b, br.target(1))
+            r_ok = bool(vals) and all(v[0] == 'call' and v[1].endswith('::from_residual') and any(y == x for y in D.walk(v)) for v in vals)
+            if e_ok and r_ok:
+                good.add(c.bb)
+            else:
+                bad.add(c.bb)
+    return [c for c in lookups if c.bb in bad or c.bb not in good]
+
+
 def rule_a(ctx):
     F = ctx.facts
+    STATE = 'send::SendState'
+    is_state = _field_named('state')
+    is_stop = _field_named('stop_reason')
     w = ctx.pfn('Send::write')
+    wrets = w.return_blocks()
     pops = [c.bb for c in w.calls_to('BytesSource::pop_chunk')]
+    ctx.floor('a', 'write_data_take_sites', len(pops), 1)
     # !is_writable -> ClosedStream
     es = bool_edges(ctx, w, lambda d: D.has_call(d, 'Send::is_writable') and d[0] == 'call')
     ok = False
@@ -26,63 +260,105 @@ def rule_a(ctx):
             ok = path_avoiding(w, [tgt], set(w.return_blocks()) | set(pops), eff) is None
     ctx.check(ok, 'a', 'write_on_non_ready_is_closed', w, w.where(), '!is_writable() -> ClosedStream before any pop', 'Send::write no longer refuses non-Ready streams with ClosedStream')
     iw = ctx.pfn('Send::is_writable')
-    rd = [x for _, x in ret_descs(F, iw)]
-    # matches!(state, Ready): discriminant test of self.state
-    brs = [b for b in branches(F, iw) if b.desc[0] == 'discr' and D.has_field(b.desc[1], 'state')]
-    ctx.check(bool(brs), 'a', 'is_writable_tests_state', iw, iw.where(), 'matches!(self.state, Ready)', 'is_writable no longer inspects self.state')
-    # stop_reason = Some(c) -> Stopped(c)
+    # is_writable() == (self.state is Ready), exactly: the set of variants answering true is {Ready}
+    vp = variant_predicate(F, iw, STATE, is_state)
+    ctx.check(vp == {'Ready'}, 'a', 'is_writable_tests_state', iw, iw.where(), 'matches!(self.state, Ready): true exactly for {Ready}',
+              'is_writable is not exactly the test `self.state is Ready` (answers true for %s)' % (sorted(vp) if vp is not None else 'a condition that is not a variant test of self.state'))
+    # stop_reason = Some(c) -> Stopped(c), decided before any data is taken
     cons = [c for c in constructions(F, 'WriteError', 'Stopped', crate='quinn_proto') if F.root_of(c.body).id == w.id]
     d = describer(F, w)
     ok = bool(cons) and all(D.has_field(d.operand(c.ops[0], c.bb, c.idx), 'stop_reason') for c in cons) and all(all(w.dominates(c.bb, p) is False for p in pops) for c in cons)
-    brs = [b for b in branches(F, w) if b.desc[0] == 'discr' and D.has_field(b.desc[1], 'stop_reason')]
-    ok = ok and bool(brs) and all(all(p not in w.reachable_from(b.target(1)) for p in pops) for b in brs)
+    tests = option_tests(F, w, is_stop)
+    cb = {c.bb for c in cons}
+    # a test of stop_reason dominates every pop_chunk; over its Some edge no pop is reachable and every path builds Stopped(code)
+    ok = ok and bool(pops) and all(any(w.dominates(br.bb, p) and p not in w.reachable_from(some) and path_avoiding(w, [some], wrets, cb) is None
+                                       for br, some, none in tests) for p in pops)
     ctx.check(ok, 'a', 'write_on_stopped_reports_code', w, w.where(), 'stop_reason Some(c) -> Err(Stopped(c)), no data taken', 'Send::write no longer reports Stopped(code) before taking data')
+    # the STATE decides the outcome before anything else does (flow control, data): every path entry -> return passes
+    #   * a stop_reason test whose Some edge always builds Stopped, and
+    #   * an is_writable test whose false edge always builds ClosedStream,
+    # unless the path already builds one of the two state outcomes (a refusal by the other state test).  A path that
+    # returns anything else (Blocked, Ok) without having asked both questions makes the result depend on the
+    # window/data instead of the state of the half.
+    closed_eff = effect_blocks(ctx, w, variant=('WriteError', 'ClosedStream'))
+    state_out = set(closed_eff) | cb
+    stop_tests = {br.bb for br, some, none in tests if some != none and cb and path_avoiding(w, [some], wrets, cb) is None}
+    wr_tests = {br.bb for br, truth, tgt in es if truth is False and closed_eff and br.target(0) != br.target(1)
+                and path_avoiding(w, [tgt], wrets, closed_eff) is None}
+    for nm, tb, what in (('stop_reason', stop_tests, 'Stopped(code)'), ('is_writable', wr_tests, 'ClosedStream')):
+        p = path_avoiding(w, [0], wrets, tb | state_out) if tb else [0]
+        ctx.check(p is None, 'a', 'write_outcome_decided_by_state_first', w, w.where(),
+                  'every path to a return passes the %s test (refusing with %s) or already refuses by state' % (nm, what),
+                  'Send::write can return an outcome that is not determined by the state of the half: a path reaches a return without the %s test '
+                  '(e.g. Blocked/Ok for a half that must report %s): %s' % (nm, what, fmt_path(w, p) if tb else 'no such test found'))
     fin = ctx.pfn('Send::finish')
+    frets = fin.return_blocks()
     cons = [c for c in constructions(F, 'FinishError', 'Stopped', crate='quinn_proto') if F.root_of(c.body).id == fin.id]
     st = [wr for wr in field_writes(F, 'send::Send', 'state', crate='quinn_proto') if F.root_of(wr.body).id == fin.id and wr.kind == 'assign']
-    brs = [b for b in branches(F, fin) if b.desc[0] == 'discr' and D.has_field(b.desc[1], 'stop_reason')]
-    ok = bool(cons) and bool(st) and bool(brs) and all(all(s.bb not in fin.reachable_from(b.target(1)) for s in st) for b in brs)
+    fp = [wr for wr in field_writes(F, 'send::Send', 'fin_pending', crate='quinn_proto') if F.root_of(wr.body).id == fin.id]
+    tests = option_tests(F, fin, is_stop)
+    cb = {c.bb for c in cons}
+    # the stop_reason test dominates every store of state / fin_pending, which is unreachable over the Some edge; that edge always builds Stopped
+    ok = bool(cons) and bool(st) and all(any(fin.dominates(br.bb, s.bb) and s.bb not in fin.reachable_from(some) and path_avoiding(fin, [some], frets, cb) is None
+                                             for br, some, none in tests) for s in st + fp)
     ctx.check(ok, 'a', 'finish_on_stopped_reports_code', fin, fin.where(), 'stop_reason -> Err(Stopped), state untouched', 'Send::finish no longer refuses stopped streams before changing state')
-    # state == Ready guard for the transition; else ClosedStream
-    eqs = [b for b in branches(F, fin) if D.has_field(b.desc, 'state') and (relation_on(b.desc, True) or b.desc[0] in ('call', 'discr'))]
+    # state == Ready guard for the transition; else ClosedStream: every store lies behind the Ready edge of a variant test of
+    # self.state; over the edge of every other variant no store is reachable and an error is always built (ClosedStream, or Stopped
+    # when the stop test comes second)
+    closed = effect_blocks(ctx, fin, variant=('FinishError', 'ClosedStream'))
     okf = False
     for b in branches(F, fin):
-        r = D.render(b.desc)
-        if 'state' in r and ('Ready' in r or b.desc[0] == 'discr' or 'PartialEq' in r or 'Eq' in r):
-            # true edge reaches the state store, false edge reaches ClosedStream and not the store
-            for v, t in b.edges:
-                reach = fin.reachable_from(t)
-                has_store = any(s.bb in reach for s in st)
-                has_closed = bool(effect_blocks(ctx, fin, variant=('FinishError', 'ClosedStream')) & reach)
-                if has_closed and not has_store:
-                    okf = True
-    ctx.check(okf, 'a', 'finish_only_from_ready', fin, fin.where(), 'state == Ready -> DataSent; else ClosedStream', 'Send::finish accepts states other than Ready')
-    fs = [c for c in constructions(F, 'send::SendState', 'DataSent', crate='quinn_proto') if F.root_of(c.body).id == fin.id]
-    ctx.check(bool(fs), 'a', 'finish_moves_to_data_sent', fin, fin.where(), 'DataSent{finish_acked:false}', 'finish no longer moves the stream to DataSent')
-    fp = [wr for wr in field_writes(F, 'send::Send', 'fin_pending', crate='quinn_proto') if F.root_of(wr.body).id == fin.id]
-    ctx.check(bool(fp), 'a', 'finish_queues_fin', fin, fin.where(), 'fin_pending = true', 'finish no longer queues the FIN')
-    # SendStream::reset: ResetSent -> ClosedStream
+        vt = variant_test(F, b, STATE, is_state)
+        if not vt:
+            continue
+        behind = all(edge_dominates(fin, b.bb, vt['Ready'], s.bb) for s in st + fp)
+        others = all(not any(s.bb in fin.reachable_from(t) for s in st + fp) and bool(closed & fin.reachable_from(t)) and path_avoiding(fin, [t], frets, closed | cb) is None
+                     for v, t in vt.items() if v != 'Ready')
+        if behind and others and vt['Ready'] not in [t for v, t in vt.items() if v != 'Ready']:
+            okf = True
+    ctx.check(okf and bool(st), 'a', 'finish_only_from_ready', fin, fin.where(), 'state == Ready -> DataSent; else ClosedStream', 'Send::finish accepts states other than Ready')
+    # the value stored is exactly DataSent { finish_acked: false }
+    sv = store_values(ctx, 'send::Send', 'state', in_fn=fin)
+    ok = bool(sv) and all(_agg_is(v, ('SendState', 'DataSent')) and len(v) > 4 and 'finish_acked' in v[4] and _is_const(v[3][v[4].index('finish_acked')], 0) for _, v in sv)
+    ctx.check(ok, 'a', 'finish_moves_to_data_sent', fin, fin.where(), 'state = DataSent{finish_acked:false}',
+              'finish does not store exactly DataSent{finish_acked: false} into state: %s' % ([D.render(v)[:80] for _, v in sv] or 'no store'))
+    # ... and the FIN is queued: fin_pending = true, on every path after the transition
+    fv = store_values(ctx, 'send::Send', 'fin_pending', in_fn=fin)
+    fb = {x.bb for x, _ in fv}
+    ok = bool(fv) and all(_is_const(v, 1) for _, v in fv) and bool(st)
+    for s in st:
+        # same block, or before the transition on every path to it, or after it on every path to a return
+        before = any(x.bb == s.bb or fin.dominates(x.bb, s.bb) for x, _ in fv)
+        ok = ok and (before or path_avoiding(fin, fin.succ[s.bb], frets, fb) is None)
+    ctx.check(ok, 'a', 'finish_queues_fin', fin, fin.where(), 'fin_pending = true together with the transition',
+              'finish does not set fin_pending = true whenever it moves to DataSent: %s' % ([D.render(v)[:40] for _, v in fv] or 'no store'))
+    # SendStream::reset: ResetSent -> ClosedStream, decided before Send::reset
     rs = ctx.pfn('SendStream::reset')
+    rrets = rs.return_blocks()
     sr = [c.bb for c in rs.calls_to('Send::reset')]
-    brs = [b for b in branches(F, rs) if b.desc[0] == 'discr' and D.has_field(b.desc[1], 'state')]
-    ok = False
-    for b in brs:
-        for v, t in b.edges:
-            reach = rs.reachable_from(t)
-            if effect_blocks(ctx, rs, variant=('ClosedStream', 'ClosedStream')) & reach and not any(s in reach for s in sr):
-                ok = True
-    ctx.check(ok and bool(sr), 'a', 'reset_twice_is_closed', rs, rs.where(), 'ResetSent -> Err(ClosedStream) before Send::reset', 'a redundant reset is no longer refused')
-    # missing entry -> ClosedStream (Option::ok_or(ClosedStream) on the map lookup)
+    closed = effect_blocks(ctx, rs, variant=('ClosedStream', 'ClosedStream'))
+    refused = []        # (branch, target taken when the state is ResetSent)
+    for b in branches(F, rs):
+        vt = variant_test(F, b, STATE, is_state)
+        if vt and vt['ResetSent'] not in [t for v, t in vt.items() if v != 'ResetSent']:
+            refused.append((b, vt['ResetSent']))
+    irs = ctx.pfn('Send::is_reset')
+    if variant_predicate(F, irs, STATE, is_state) == {'ResetSent'}:
+        refused += [(b, t) for b, truth, t in bool_edges(ctx, rs, lambda x: x[0] == 'call' and x[1] == 'Send::is_reset') if truth]
+    ok = bool(sr) and bool(closed) and all(any(rs.dominates(b.bb, s) and s not in rs.reachable_from(t) and path_avoiding(rs, [t], rrets, closed) is None for b, t in refused) for s in sr)
+    ctx.check(ok, 'a', 'reset_twice_is_closed', rs, rs.where(), 'ResetSent -> Err(ClosedStream) before Send::reset', 'a redundant reset (state ResetSent) is no longer refused with ClosedStream before Send::reset')
+    # missing entry -> ClosedStream: the None outcome of the map lookup itself is what yields the error
     n = 0
     for fn, var in (('SendStream::write_source', ('WriteError', 'ClosedStream')), ('SendStream::finish', ('FinishError', 'ClosedStream')),
                     ('SendStream::reset', ('ClosedStream', 'ClosedStream')), ('SendStream::set_priority', ('ClosedStream', 'ClosedStream')),
                     ('SendStream::stopped', ('ClosedStream', 'ClosedStream')), ('SendStream::priority', ('ClosedStream', 'ClosedStream'))):
         b = ctx.pfn(fn)
-        eff = effect_blocks(ctx, b, variant=var)
-        lookups = b.calls_to('HashMap::get_mut', 'HashMap::get')
-        ok = bool(eff) and bool(lookups)
+        lookups = [c for c in b.calls_to('HashMap::get_mut', 'HashMap::get') if D.has_field(arg_desc(F, c, 0), 'send')]
+        loose = missing_entry_refused(ctx, b, lookups, var)
+        ok = bool(lookups) and not loose
         n += 1 if ok else 0
-        ctx.check(ok, 'a', 'missing_entry_is_closed_stream', b, b.where(), 'map lookup .ok_or(ClosedStream)', '%s no longer maps a missing stream entry to ClosedStream' % fn)
+        ctx.check(ok, 'a', 'missing_entry_is_closed_stream', b, b.where(), 'None of the map lookup -> %s (%d lookup(s))' % (var[1], len(lookups)),
+                  '%s no longer maps a missing stream entry to ClosedStream (lookup at %s)' % (fn, [c.where() for c in loose] or 'none found'))
     ctx.floor('a', 'closed_stream_mappings', n, 6)
 
 
@@ -122,12 +398,28 @@ def rule_b(ctx):
         ctx.check(p is None and bool(scons), 'b', 'stopped_always_on_first_stop', rss, br.where(), 'every path from try_stop()==true reaches push_back(Stopped)',
                   'a first STOP_SENDING records the stop reason but a path skips the Stopped event: ' + (fmt_path(rss, p) if p else ''))
     ts = ctx.pfn('Send::try_stop')
-    brs = [b for b in branches(F, ts) if D.has_field(b.desc, 'stop_reason')]
-    ctx.check(bool(brs), 'b', 'try_stop_tests_previous_reason', ts, ts.where(), 'stop_reason.is_none()', 'try_stop no longer distinguishes the first stop')
+    # exactly: None edge -> records Some(code) and answers true; Some edge -> leaves the reason alone and answers false
+    sw = [x for x in field_writes(F, 'send::Send', 'stop_reason', crate='quinn_proto') if F.root_of(x.body).id == ts.id and x.kind == 'assign']
+    svs = store_values(ctx, 'send::Send', 'stop_reason', in_fn=ts)
+    val_ok = bool(svs) and all(_agg_is(v, ('Option', 'Some')) and len(v[3]) == 1 and v[3][0][0] == 'param' for _, v in svs)
+    okt = False
+    for br, some, none in option_tests(F, ts, _field_named('stop_reason')):
+        if some == none or not all(ts.dominates(br.bb, r) for r in ts.return_blocks()):
+            continue
+        rn, rsm = returns_via(F, ts, none), returns_via(F, ts, some)
+        first = bool(sw) and all(edge_dominates(ts, br.bb, none, x.bb) for x in sw) and path_avoiding(ts, [none], ts.return_blocks(), {x.bb for x in sw}) is None \
+            and bool(rn) and all(_is_const(x, 1) for x in rn)
+        again = not any(x.bb in ts.reachable_from(some) for x in sw) and bool(rsm) and all(_is_const(x, 0) for x in rsm)
+        if first and again:
+            okt = True
+    ctx.check(okt and val_ok, 'b', 'try_stop_tests_previous_reason', ts, ts.where(), 'stop_reason None -> store Some(code), true; Some -> untouched, false',
+              'try_stop does not (only) record the reason and answer true exactly when no reason was recorded before')
     who_may_construct(ctx, 'b', 'opened_event_sites', 'StreamEvent', 'Opened', ['StreamsState::poll'], floor=1)
     who_may_write(ctx, 'b', 'opened_flag_writers', SS, 'opened', ['StreamsState::on_stream_frame', 'StreamsState::poll', 'StreamsState::new'], floor=2, kinds=('assign', 'mutborrow'))
     osf = ctx.pfn('StreamsState::on_stream_frame')
-    for w, v in store_values(ctx, SS, 'opened', in_fn=osf):
+    osv = store_values(ctx, SS, 'opened', in_fn=osf)
+    ctx.floor('b', 'opened_flag_sets_in_on_stream_frame', len(osv), 1)
+    for w, v in osv:
         # only when stream.index() >= next_remote
         guard_protects(ctx, 'b', 'opened_only_for_new_highest_remote_index', osf, lambda o, a, b: o == 'Lt' and D.has_call(a, 'StreamId::index') and ('next' in D.render(b)), [w.bb], what='index < next_remote')
     who_may_construct(ctx, 'b', 'readable_event_sites', 'StreamEvent', 'Readable', ['StreamsState::on_stream_frame'], floor=1)
@@ -208,8 +500,14 @@ def rule_d(ctx):
         ctx.check(es is None, 'd', 'slot_release_reissues_credit', sf, w.where(), 'followed by ensure_remote_streams', 'released slot is not followed by ensure_remote_streams')
     ss = [(w, v) for w, v in store_values(ctx, SS, 'send_streams', in_fn=sf)]
     for w, v in ss:
-        brs = [b for b in branches(F, sf) if D.has_param(b.desc, name='half') and sf.dominates(b.bb, w.bb)]
-        ctx.check(bool(brs), 'd', 'send_streams_only_for_send_half', sf, w.where(), 'guarded by half == Send', 'send_streams is decremented regardless of the half')
+        # only reachable over the Send edge of a test of the `half` parameter, never over its Recv edge
+        okh = False
+        for b in branches(F, sf):
+            vt = variant_test(F, b, 'StreamHalf', lambda x: x[0] == 'param' and x[2] == 'half')
+            if vt and vt['Send'] != vt['Recv'] and edge_dominates(sf, b.bb, vt['Send'], w.bb) and w.bb not in sf.reachable_from(vt['Recv'], avoid=[b.bb]):
+                okh = True
+        ctx.check(okh, 'd', 'send_streams_only_for_send_half', sf, w.where(), 'guarded by half == Send', 'send_streams is not decremented exactly when the freed half is the Send half')
+    ctx.floor('d', 'send_streams_release_sites', len(ss), 1)
     who_may_write(ctx, 'd', 'send_streams_writers', SS, 'send_streams', ['StreamsState::stream_freed', 'Streams::open', 'Streams::accept', 'StreamsState::zero_rtt_rejected', 'StreamsState::new'], floor=4)
     who_may_write(ctx, 'd', 'allocated_remote_count_writers', SS, 'allocated_remote_count', ['StreamsState::stream_freed', 'StreamsState::ensure_remote_streams', 'StreamsState::new'], floor=2)
 
@@ -219,11 +517,30 @@ def rule_e(ctx):
     ep = ctx.qfn('SendStream::execute_poll')
     d = describer(F, ep)
     # Blocked -> Pending + register ; Stopped -> Stopped ; ClosedStream -> ClosedStream
+    # each outcome is produced on the edge of the matching proto::WriteError variant of ONE scrutinee S (the error of the
+    # proto write): quinn Stopped carries (S as Stopped).0, so S is found structurally from that operand
+    pw = {v['name']: int(v['discr']) for v in F.adt('send::WriteError')['variants']}
+    scrs = {}           # body id -> scrutinee descriptors
     for var in ('Stopped', 'ClosedStream'):
         cons = [c for c in constructions(F, 'send_stream::WriteError', var, crate='quinn') if F.root_of(c.body).id == ep.id]
-        ctx.check(bool(cons), 'e', 'write_error_mapped_' + var.lower(), ep, ep.where(), 'quinn::WriteError::%s constructed' % var, 'execute_poll no longer maps proto %s' % var)
+        ok = bool(cons)
+        for c in cons:
+            brs = branches(F, c.body)
+            if var == 'Stopped':
+                od = describer(F, c.body).operand(c.ops[0], c.bb, c.idx)
+                S = od[1][1] if (od[0] == 'field' and od[2] == '0' and od[1][0] == 'variant' and od[1][2] == 'Stopped') else None
+                if S is not None:
+                    scrs.setdefault(c.body.id, []).append(S)
+                cands = [S] if S is not None else []
+            else:
+                cands = scrs.get(c.body.id, [])
+            ok = ok and any(b.desc == ('discr', S) and edge_dominates(c.body, b.bb, b.target(pw[var]), c.bb)
+                            and all(b.target(pw[var]) != b.target(k) for n_, k in pw.items() if n_ != var) for b in brs for S in cands)
+        ctx.check(ok, 'e', 'write_error_mapped_' + var.lower(), ep, ep.where(), 'proto %s edge -> quinn::WriteError::%s' % (var, var),
+                  'execute_poll does not build quinn WriteError::%s exactly on the proto WriteError::%s edge' % (var, var))
     ins = [c for c in ep.calls() if c.is_('HashMap::insert') and D.has_field(arg_desc(F, c, 0), 'blocked_writers')]
-    ctx.check(bool(ins), 'e', 'blocked_write_registers_waker', ep, ep.where(), 'blocked_writers.insert(id, waker)', 'Blocked no longer registers the writer')
+    ok = bool(ins) and all(any(b.desc == ('discr', S) and edge_dominates(ep, b.bb, b.target(pw['Blocked']), c.bb) for b in branches(F, ep) for S in scrs.get(ep.id, [])) for c in ins)
+    ctx.check(ok, 'e', 'blocked_write_registers_waker', ep, ep.where(), 'proto Blocked edge -> blocked_writers.insert(id, waker)', 'Blocked no longer registers the writer (on the Blocked edge)')
     # check_0rtt precedes proto calls
     n = 0
     for fn, protos, crate_fn in (
